@@ -11,9 +11,10 @@
      denotes (real terminals show a blank there; the theorems prove that the
      renderer never leaves such a cell behind, so they do not depend on what
      exactly a terminal shows in it);
-   * a space is stored as [Blank]: erased cells and printed spaces are the same;
-   * EraseChars n blanks [c, c+n) clipped to the row with the current rendition
-     and does not move the cursor;
+   * a printed space is stored as [Blank] in the face [fspace pen] (what of the rendition a
+     blank cell shows); EraseChars n blanks [c, c+n) clipped to the row, does not move the
+     cursor, and leaves [Blank] in the face [ferase pen] — the background only: an erased
+     cell is NOT a printed space when the rendition underlines, strikes or reverses;
    * CursorTo beyond the last row clamps to the last row (CUP); a column beyond
      the width, printing beyond the width, EraseChars 0, a zero-width
      character and every command the renderer has no business issuing set the
@@ -37,6 +38,7 @@ Inductive cmd :=
 | CEraseChars (n : nat)
 | CImage (i : N) (r c : nat)
 | CImageErase (i : N) (p : option (nat * nat))
+| CSync (on : bool)     (* DECSET/DECRST 2026 synchronized output around a frame: no effect on what is displayed *)
 | COther.
 
 Definition placement := (N * nat * nat)%type.
@@ -64,6 +66,9 @@ Definition placement_eqb (a b : placement) : bool :=
   let '(i, r, c) := a in let '(j, r', c') := b in N.eqb i j && Nat.eqb r r' && Nat.eqb c c'.
 
 Definition glyph_of (ch : N) : glyph := if N.eqb ch space then Blank else Ch ch.
+(* the cell a narrow character printed in face f leaves *)
+Definition cell_of (o : oracle) (ch : N) (f : face) : scell :=
+  if N.eqb ch space then (Blank, fspace o f) else (Ch ch, f).
 
 (* ---------- writing one cell ---------- *)
 Definition orphan (row : list scell) (k : nat) : list scell :=
@@ -95,10 +100,10 @@ Definition unpair (row : list scell) (k : nat) : list scell :=
 Definition put (row : list scell) (k : nat) (x : scell) : list scell :=
   upd (unpair row k) k x.
 
-Fixpoint erase_cells (row : list scell) (c n : nat) (f : face) : list scell :=
+Fixpoint erase_cells (row : list scell) (c n : nat) (x : scell) : list scell :=
   match n with
   | O => row
-  | S n' => erase_cells (put row c (Blank, f)) (S c) n' f
+  | S n' => erase_cells (put row c x) (S c) n' x
   end.
 
 (* a wide character is written atomically: both cells it will occupy are freed first *)
@@ -107,7 +112,7 @@ Definition put2 (row : list scell) (k : nat) (x y : scell) : list scell :=
 
 Definition put_char (o : oracle) (row : list scell) (c : nat) (ch : N) (f : face) : list scell :=
   match cw o ch with
-  | 1 => put row c (glyph_of ch, f)
+  | 1 => put row c (cell_of o ch f)
   | 2 => put2 row c (WL ch, f) (WR, f)
   | _ => row
   end.
@@ -144,7 +149,7 @@ Definition exec (o : oracle) (s : screen) (c : cmd) : screen :=
   | CEraseChars n =>
       let '(r, c) := cur s in
       if (0 <? n) && (c <? sw s) && (r <? sh s)
-      then set_grid s (on_row (sgrid s) r (fun row => erase_cells row c n (pen s))) (r, c)
+      then set_grid s (on_row (sgrid s) r (fun row => erase_cells row c n (Blank, ferase o (pen s)))) (r, c)
       else set_err s
   | CImage i r c =>
       if place_mem (i, r, c) (places s) then s else set_places s ((i, r, c) :: places s)
@@ -152,6 +157,7 @@ Definition exec (o : oracle) (s : screen) (c : cmd) : screen :=
       set_places s (filter (fun p => negb (placement_eqb p (i, r, c))) (places s))
   | CImageErase i None =>
       set_places s (filter (fun p => negb (N.eqb (fst (fst p)) i)) (places s))
+  | CSync _ => s
   | COther => set_err s
   end.
 
